@@ -96,6 +96,29 @@ CHECKS = {
              "step, and not at all; plus boundary corpus (a committed write drawing the number right after a Begin).",
         design="7/C09", technique="Coq refinement proof (collector = identity of the abstract machine) + position-exhaustive correspondence run",
         note="Collector invoked between operations (concurrent collection: C06/C08). " + NOTE_COMMON),
+    "C12": dict(
+        text="Theorems (Coq, for ALL write lists incl. empty writes, all read-buffer sizes B >= 1, all failure points of the storing "
+             "side and ALL schedules of the two threads, over a transition system of internal/utils/async/read_writer.go with one "
+             "step per stretch of code between two pause points): no reachable state is stuck, every schedule is finite (explicit "
+             "bound) and can be completed, and Close has returned in the final state; whenever Close returned nil every Write "
+             "returned nil and the published content is exactly the concatenation of the writes; the error flag is set exactly "
+             "when the storing side failed, then Close returns the error and nothing is published; the invariant (reader about to "
+             "wait or parked => pipe open and buffer empty, or a Signal/Broadcast is pending); the gRPC stream writer sends chunks "
+             "of length 1..chunkSize whose concatenation is the concatenation of the writes. Refuted for the code before the "
+             "fix: commit and stated as such with vm_compute witnesses (content truncated after an empty Write; Close never returns "
+             "when it broadcasts before the reader parks; each half of the repair alone is insufficient). Tie: schedule replay "
+             "through verifhook pause points: the extracted model enumerates every replayable (eager-normal) complete schedule for "
+             "all write lists of <= 3 writes with sizes {0,1,2} and B in {1,2}, plus probes (a thread the model says is blocked is "
+             "released and must block) and failure runs; each is replayed on the real readWriter and the pause-point trace, "
+             "Write/Close results and stored bytes must equal the model's; the two recorded witness schedules run first; "
+             "sequential Create/Write*/Close/Get through the inline and gRPC clients with sizes around the 32 KiB copy buffer; "
+             "streamwriter chunking against the model; a sample is re-evaluated by vm_compute.",
+        design="7/C12", technique="Coq proof (invariant over all interleavings + termination measure) + schedule replay of the "
+                                  "extracted model's schedules on the real code + end-to-end runs",
+        note="Step granularity = pause points (DESIGN appendix A): interleavings inside a step and the runtime's Mutex/Cond/WaitGroup "
+             "are assumed, not verified. One writer and one storing goroutine per file. Replay cannot delay a goroutine that is "
+             "blocked inside cv.Wait/Lock, so schedules in which such a thread lingers are covered by the theorems only. Over gRPC "
+             "only successful contents are compared (unmapped stream errors are D6, under C11). " + NOTE_COMMON),
     "C13": dict(
         text="Theorems (Coq): the abstract machine rejects every operation through a non-open handle with ErrTxNotFound "
              "(Rollback: no-op) and changes nothing; ended handles are not open; the model agrees on every history without a "
